@@ -59,6 +59,7 @@ BOUNDS = {
     "quick": {"components": COMPONENTS_Q, "shapes": SHAPES, "D": 2, "D_2leaf": 3,
               "components_4leaf": COMPONENTS_4Q, "shapes_4leaf": SHAPES4, "D_4leaf": 2},
     "thorough": {"components": COMPONENTS_T, "shapes": SHAPES, "D": 3,
+                 "D_note": "programs with >=3 leaves: the weak-part alternative only in combinations of <=2 deviations",
                  "components_4leaf": COMPONENTS_4T, "shapes_4leaf": SHAPES4, "D_4leaf": 2},
 }
 CASE_TIMEOUT = 900
@@ -564,6 +565,8 @@ def run_case(case, ctx):
     for ndev, cfg in deviations(dims, case["D"]):
         if cfg["dim"] == "1d" and any(cfg.get("pd:%d" % k) == "theta" for k in range(nleaf)):
             continue        # jitter is only applied for 2-D data: in 1-D this is the identical call without it
+        if ndev >= 3 and nleaf >= 3 and any(cfg.get("zero:%d" % k) == 2 for k in range(nleaf)):
+            continue        # time budget of the thorough tier: weak parts of >=3-leaf programs in combinations of <=2 deviations
         one(ndev, cfg)
 
     # ---- re-use of one kernel object after a refused evaluation: the refusal is raised while the mixture is
